@@ -19,6 +19,12 @@ func c05ProbeRules(c *core.Ctx) {
 	c05Rules4(c)
 	c05SizeHint(c)
 	c05Rules5(c)
+	c05ParallelIndex(c)
+	c05ScalarField(c)
+	if root := c.P.Pkg(""); root != nil {
+		c05GoDecode(c, root)
+		c05Cron(c, root, "C05.cronprobe", "C05.cronend")
+	}
 	c.Rule("C05.alerttmpl", "A1: F107: AlertNode.event does not return the error of the message/details templates (their execution depends on the fields of the point): on the paths where rendering failed it counts the error and returns an event with a nil error")
 	c.Rule("C05.iqlargs", "A11 (sibling agreement between the pipeline and the runtime): every integer or duration parameter that a pipeline method hands to an InfluxQL reducer constructor (they index, allocate and divide by it unchecked) is checked in validateInfluxQLArgs, which newInfluxQLNode calls before anything else")
 	c.Rule("C05.nest", "A12 (call-graph cycles): every recursion cycle among the methods of the TICKscript parser passes through a method that enters the bounded nesting counter (defer p.nest()()), or is an exception with a proved bound; the counter compares against a constant and ends the parse")
